@@ -174,7 +174,7 @@ func VX_C04_VetoOrder(args []int) {
 // handler has finished and its reply is written, and the session is closed.
 // args: customID(0/1)
 func VX_C08_PeerCloseAfterRedial(args []int) {
-	p := NewPeer(PeerConfig{RedialTimes: 2})
+	p := NewPeer(PeerConfig{RedialTimes: 2, RedialInterval: vxRedialEvery})
 	gate := make(chan struct{})
 	entered := 0
 	route := &vxRoute{name: "slow"}
